@@ -97,6 +97,16 @@ theorem ffi_order_independent (g g' : Graph) (root : String)
 /-! ### Require lines: each non-builtin import exactly once, sorted, whatever the order and
 repetition of the import specs across files -/
 
+/-- The logical path of a Require is the whole import path with '.' and '-' mapped to '_' and '/' to '.', also for an
+import path of a single element (repair 325b549; before it `path.Dir`'s "." was printed as a component: `..m`). -/
+theorem require_logical_path (p : String) :
+    coqRequire p = (if (baseOf p).startsWith "trusted_" then "From Perennial.goose_lang.trusted Require Import " else "From Goose Require ")
+      ++ (pathToCoqPath p).replace "/" "." ++ "." := by
+  unfold coqRequire
+  split <;> simp [String.append_assoc]
+
+-- (concrete instances — `m`, `my-lib.v2`, trusted_ packages — are compared with the real goose by pylib/c08.py through `driver cli`)
+
 theorem requires_mem (imps : List String) (line : String) :
     line ∈ requires imps ↔ ∃ p ∈ imps, isBuiltinImport p = false ∧ line = coqRequire p := by
   simp only [requires, List.mem_mergeSort, mem_dedup, List.mem_map, List.mem_filter, Bool.not_eq_true']
